@@ -27,7 +27,7 @@ func toyH(seed uint32, parts ...[]byte) uint32 {
 	h := seed
 	for _, p := range parts {
 		for _, b := range p {
-			h = h*16777619 + uint32(b) + 1
+			h = h*33 + uint32(b) + 1
 		}
 	}
 	return h
@@ -180,14 +180,14 @@ var badNames = []string{"", "a b", "a+b", "+", " ", "a\tb", "a\nb", "a\rb", "a\v
 // NoteName returns a server name: mostly valid, sometimes valid but containing a C0/C1
 // control character (accepted by isValidName, finding K2), sometimes invalid.
 func NoteName(r *rand.Rand) string {
-	switch k := r.Intn(20); {
-	case k < 14:
+	switch k := r.Intn(80); {
+	case k < 68:
 		return goodNames[r.Intn(len(goodNames))]
-	case k < 16:
+	case k < 70:
 		return ctrlNames[r.Intn(len(ctrlNames))]
-	case k < 18:
+	case k < 74:
 		return badNames[r.Intn(len(badNames))]
-	case k < 19:
+	case k < 78:
 		return NoteName(r) + NoteName(r)
 	default:
 		return RawBytes(r, 5)
